@@ -514,13 +514,14 @@ def sdss_specobjid(plate, fiber, mjd, run2d, line=None, index=None):
             run2d = np.array([int(run2d)])
         except ValueError:
             # Try a "vN_M_P" string.
-            m = re.match(r'v(\d+)_(\d+)_(\d+)', run2d)
+            m = re.fullmatch(r'v(\d+)_(\d+)_(\d+)', run2d)
             if m is None:
                 raise ValueError("Could not extract integer run2d value!")
             else:
-                N, M, P = m.groups()
-            run2d = np.array([(int(N) - 5)*10000 + int(M) * 100 + int(P)],
-                             dtype=np.uint64)
+                N, M, P = [int(g) for g in m.groups()]
+            if not (5 <= N <= 6 and 0 <= M <= 99 and 0 <= P <= 99):
+                raise ValueError("run2d string values are out-of-bounds!")
+            run2d = np.array([(N - 5)*10000 + M * 100 + P], dtype=np.uint64)
     elif isinstance(run2d, int):
         run2d = np.array([run2d])
     if line is None:
